@@ -64,7 +64,42 @@ func c17Gen(r *core.Rand, dt int, plen int) ref.RTP {
 	if plen >= 4 && r.Chance(1, 3) { // payload that itself contains the marker
 		copy(k.Payload[r.Intn(plen-3):], []byte{0x30, 0x31, 0x63, 0x64})
 	}
+	if plen >= 4 && r.Chance(1, 4) {
+		c17Head(k.Payload, r.Intn(12))
+	}
 	return k
+}
+
+// c17Head overwrites the first bytes of a payload with the heads that media payloads really start with — private audio heads of
+// chip vendors whose length byte is consistent with the payload (00 01 LL 00 with LL = half / all of what follows), NAL start
+// codes, ADTS sync words, the stream marker itself, an RTP header. The payload is opaque to the packet layout: whatever it starts
+// with, it is handed back as it is.
+func c17Head(p []byte, which int) {
+	n := len(p)
+	switch which {
+	case 0, 1:
+		copy(p, []byte{0x00, 0x01, byte((n - 4) / 2), 0x00})
+	case 2:
+		copy(p, []byte{0x00, 0x01, byte(n - 4), 0x00})
+	case 3:
+		copy(p, []byte{0x00, 0x01, byte(n / 2), 0x00})
+	case 4:
+		copy(p, []byte{0x00, 0x00, 0x00, 0x01})
+	case 5:
+		copy(p, []byte{0x00, 0x00, 0x01, 0x65})
+	case 6:
+		copy(p, []byte{0xff, 0xf1, 0x50, 0x80})
+	case 7:
+		copy(p, []byte{0x30, 0x31, 0x63, 0x64})
+	case 8:
+		copy(p, []byte{0x80, 0x60, 0x00, 0x01})
+	case 9:
+		copy(p, []byte{0x00, 0x01, byte((n - 4) / 2), 0x01})
+	case 10:
+		copy(p, []byte{0x01, 0x00, byte((n - 4) / 2), 0x00})
+	default:
+		copy(p, []byte{byte(n >> 8), byte(n), byte((n - 4) >> 8), byte(n - 4)})
+	}
 }
 
 // c17Stream decodes a whole stream step by step and compares every step with the reference classification
@@ -313,6 +348,18 @@ func c17Worker(c *core.Collector, x *Ctx) {
 				run(append(append([]byte{}, b...), q.Build()...), []ref.RTP{k, q}, true, "every-length")
 				if len(b) > 0 {
 					run(b[:len(b)-1], nil, true, "cut")
+				}
+				if l >= 4 {
+					// the same length with each of the payload heads media streams start with (vendor audio head with a consistent
+					// length byte, NAL start code, ADTS, the marker, ...)
+					for h := 0; h < 12; h++ {
+						if l > 700 && h != l%12 && h > 1 {
+							continue // every head for every short length, the vendor audio head for every length, one more beyond
+						}
+						kh := c17Gen(r, dt, l)
+						c17Head(kh.Payload, h)
+						run(kh.Build(), []ref.RTP{kh}, true, "every-length-with-payload-head")
+					}
 				}
 			}
 		})
